@@ -254,6 +254,44 @@ def evaluate_html_map(state, arg):
     return res
 
 
+def gen_html_arg_cases(tier: str, seed: int):
+    """arguments of get_html_map of OTHER shapes than DocxContent's *_runs: paragraphs that are plain strings
+    (DocxContent.body, the docstring's [[[['text']]]]), shallower and deeper nestings: whatever the function
+    does with them, it must not modify them (round-9 seed C20-html-map-shallow-copy-above-runs)"""
+    rng = random.Random(seed + 3)
+    atoms = ["text", "", "a", "x y"]
+    out = []
+    for _ in range(80 if tier == "quick" else 3000):
+        levels = rng.choice([1, 2, 3, 4, 4, 4, 4, 5, 6])
+
+        def build(level):
+            if level == levels:
+                return [rng.choice(atoms) for _ in range(rng.choice([1, 1, 2, 3]))]
+            return [build(level + 1) for _ in range(rng.choice([1, 1, 2, 3]))]
+        out.append({"html_arg": build(1)})
+    return out
+
+
+def evaluate_html_arg(state, arg):
+    tables = arg["html_arg"]
+    before = copy.deepcopy(tables)
+    res = {"key": json.dumps(tables), "features": ["html_map_other_shape"], "fail": None, "corr": None}
+    outs = []
+    for _ in range(2):
+        try:
+            outs.append(it.get_html_map(tables))
+        except Exception as ex:  # noqa: BLE001
+            outs.append(type(ex).__name__)
+        if tables != before:
+            res["fail"] = "get_html_map modified its argument"
+            break
+    if not res["fail"] and outs[0] != outs[1]:
+        res["fail"] = "two calls of get_html_map on the same argument differ"
+    if res["fail"]:
+        res["input"] = arg
+    return res
+
+
 def gen_cases(tier: str, seed: int):
     rng = random.Random(seed)
     cases = []
@@ -310,6 +348,7 @@ def run(ctx):
     results = engine.sweep("props.C20", "evaluate", cases, chunksize=64)
     results += engine.sweep("props.C20", "evaluate_html_map", hcases, chunksize=16)
     results += engine.sweep("props.C20", "evaluate_strleaf", gen_str_cases(ctx["tier"], ctx["seed"]), chunksize=16)
+    results += engine.sweep("props.C20", "evaluate_html_arg", gen_html_arg_cases(ctx["tier"], ctx["seed"]), chunksize=16)
     return summarise(results, ctx)
 
 
@@ -358,6 +397,12 @@ def search(ctx, broken, corr_broken):
             if r["fail"]:
                 found.append({"what": r["fail"], "input": r["input"]})
                 break
+    if not found:
+        for c in gen_html_arg_cases("thorough", ctx["seed"] + 7):
+            r = evaluate_html_arg(state, c)
+            if r["fail"]:
+                found.append({"what": r["fail"], "input": r["input"]})
+                break
     return found
 
 
@@ -375,7 +420,9 @@ def replay(ctx, path):
         return 1
     def has_str(t):
         return isinstance(t, str) or (isinstance(t, list) and any(has_str(x) for x in t))
-    if len(inp) == 2 and isinstance(inp[1], int):
+    if isinstance(inp, dict) and "html_arg" in inp:
+        r = evaluate_html_arg(state, inp)
+    elif len(inp) == 2 and isinstance(inp[1], int):
         r = evaluate_strleaf(state, tuple(inp)) if has_str(inp[0]) else evaluate(state, tuple(inp))
     else:
         r = evaluate_html_map(state, inp)
